@@ -53,6 +53,15 @@ def strategy_c10(draw):
     prof = dict(BASE)
     if kind in ("fixed", "lin"):
         prof["bound_pats"] = [("free", 2), ("lower", 2), ("upper", 1), ("two", 3), ("fixed", 4)]
+    if kind in ("fixed", "scale"):
+        # End-to-end bitwise comparison of these two restatements is made on problems without linear
+        # constraints: with them the two statements hold numerically identical internal matrices, but
+        # built along different NumPy paths (matrix product vs. column selection), whose memory layout
+        # changes the summation order of A @ x by one ulp; under a large penalty or in an exact merit tie
+        # that flips the choice of the best interpolation point and the runs legitimately part ways.
+        # The linear part of these restatements is decided by the component clause (kind "lin") and by
+        # C02's end-to-end maxcv clause.
+        prof["max_lin"] = 0
     if kind == "scale":
         prof["bound_pats"] = [("two", 1)]
         prof["x0_pats"] = [("in", 4), ("lb", 1), ("ub", 1), ("below", 1), ("above", 1)]
